@@ -274,7 +274,7 @@ where T: Ring + Bridge, for<'x> &'x T: RingOps<T>, T::O: OEuc + HomCmp {
 }
 
 pub fn run(ctx: &mut Ctx) {
-    let n = ctx.by_tier(12_000u64, 1_200_000);
+    let n = ctx.by_tier(48_000u64, 1_200_000);
     ctx.random_cases("i64", n, |c, r| case::<i64>(c, r, false, false));
     ctx.random_cases("BigInt", n / 2, |c, r| case::<BigInt>(c, r, true, false));
     ctx.random_cases("Ratio<i64>", n, |c, r| case::<Ratio<i64>>(c, r, false, false));
